@@ -18,6 +18,7 @@ KINDS = {
     "a": {"ack": "async", "gates": ["ack"]},  # ackable message whose ack completes later
     "x": {"outcome": "raise", "exc": "SystemExit"},  # task calling sys.exit()
     "k": {"outcome": "raise", "exc": "KeyboardInterrupt", "flavour": "sync"},
+    "p": {"task_kind": "annot"},  # task with annotated parameters (a plain class and an int) given by keyword
     "e": {"kind": "malformed", "payload": "empty"},  # empty payload
     "q": {"kind": "malformed", "payload": "sentinel-lookalike"},  # payload equal to the internal end marker
 }
@@ -59,7 +60,7 @@ def scenarios(tier: str) -> List[Dict[str, Any]]:
         words = ["".join(w) for n in (1, 2) for w in itertools.product("vrmu", repeat=n)]
         words += ["".join(w) for w in itertools.product("vm", repeat=3)] + ["vru", "uvr", "rmv"]
         words += ["s", "a", "sv", "vs", "av", "va", "sa", "ms", "am", "svs", "ava"]
-        words += ["x", "xv", "vx", "kv", "e", "ev", "ve", "q", "qv", "vq", "vev", "vvvv"]
+        words += ["x", "xv", "vx", "kv", "e", "ev", "ve", "q", "qv", "vq", "vev", "vvvv", "p", "pv", "vp"]
         l1_words = ["v", "vv", "vm", "mv"]
         l1_cfg = [(a, p, n) for a in (1, 2) for p in (0, 1) for n in (None, 1, 2)]
         l2_words: List[str] = []
@@ -69,7 +70,7 @@ def scenarios(tier: str) -> List[Dict[str, Any]]:
         words = ["".join(w) for n in (1, 2, 3) for w in itertools.product("vrmu", repeat=n)]
         words += ["".join(w) for w in itertools.product("vm", repeat=4)] + ["vrum", "uvrv", "vvvu"]
         words += ["".join(w) for n in (1, 2, 3) for w in itertools.product("vsa", repeat=n) if set(w) & set("sa")]
-        words += ["".join(w) for n in (1, 2, 3) for w in itertools.product("vxeq", repeat=n) if set(w) & set("xeq")] + ["kv", "vk"]
+        words += ["".join(w) for n in (1, 2, 3) for w in itertools.product("vxeq", repeat=n) if set(w) & set("xeq")] + ["kv", "vk", "p", "pv", "vp", "pp", "pvp"]
         l1_words = ["v", "vv", "vm", "mv", "vr", "uv", "vvv", "vmv", "mvv", "vvm"]
         l1_cfg = [(a, p, n) for a in (None, 1, 2) for p in (0, 1, 2) for n in (None, 1, 2)]
         l2_words = ["vv", "vm"]
@@ -78,6 +79,10 @@ def scenarios(tier: str) -> List[Dict[str, Any]]:
         for a, p, n, stream in itertools.product(As, Ps, Ns, ("infinite", "finite")):
             out.append({"A": a, "P": p, "N": n, "stream": stream, "stop": True, "msgs": _msgs(w), "level": 0,
                         "stateless": 9 if (len(w) <= 1 and tier == "thorough") else 0})
+    # two completions in one loop iteration with a saturated worker and a filled prefetch queue
+    for (a, p) in (((2, 2), (1, 2)) if tier == "quick" else ((2, 2), (1, 2), (2, 3), (3, 2))):
+        out.append({"A": a, "P": p, "N": None, "stream": "infinite", "stop": False, "msgs": _msgs("v" * (a + p + 1)), "level": 1,
+                    "max_body": a + 1})
     for w in l1_words:
         for (a, p, n) in l1_cfg:
             out.append({"A": a, "P": p, "N": n, "stream": "infinite", "stop": True, "msgs": _msgs(w), "level": 1})
